@@ -20,7 +20,7 @@ CPP_RCS = {0, -3, -10, -11, -12}
 
 
 def configs(ctx: Ctx) -> typing.List[E.Config]:
-    base = [E.san(E.C_LITTLE_ASSERT), E.san(E.C_ANY), E.san(E.CPP14), E.san(E.CPP17)]
+    base = [E.san(E.C_LITTLE_ASSERT), E.san(E.C_ANY), E.san(E.CPP14), E.san(E.CPP17), E.san(E.CPP17_PMR)]
     if ctx.thorough:
         base += [E.san(E.C_BIG), E.san(E.CPP20), E.san(E.CPP17_LITTLE_ASSERT), E.san(E.C_ANY, "clang"), E.san(E.CPP14, "clang")]
     return base
@@ -330,7 +330,7 @@ def run(ctx: Ctx) -> int:
     return ctx.finish(
         "model_checking",
         cov,
-        ["ASan/UBSan/LSan of gcc 12 (clang 14 in thorough) are the memory-safety oracle", "bool fields always hold valid representations (a trap bool would be the harness's UB)", "cetl / pmr flavours not executed"],
+        ["ASan/UBSan/LSan of gcc 12 (clang 14 in thorough) are the memory-safety oracle", "bool fields always hold valid representations (a trap bool would be the harness's UB)", "cetl flavour not executed (CETL submodule empty); c++17-pmr runs with the default memory resource"],
         min_outcomes=("transitions", 100),
     )
 
